@@ -5,43 +5,46 @@
 import Kopf.Lemmas.C20_InvA
 namespace Kopf.C20
 
-/-- a task that may own workers: a root observer or a spawned ensemble task -/
-def ownerOk (s : State) : Task → Prop
-  | .root r => r.kind = .observer
-  | .sub i => i < s.nSubs
-
-@[simp] theorem ownerOk_root (s : State) (r : Root) : ownerOk s (.root r) ↔ r.kind = .observer := Iff.rfl
-@[simp] theorem ownerOk_sub (s : State) (i : Nat) : ownerOk s (.sub i) ↔ i < s.nSubs := Iff.rfl
-
 structure InvB (s : State) : Prop where
   rootFailedIff : s.rootFailed = true ↔ ∃ r, s.st (.root r) = .failed
   subOrch : ∀ i, i < s.nSubs → (s.st (.sub i)).live = true → (s.st (.root .orchestrator)).active = true
-  wkOwner : ∀ w o, s.wk w = some (o, .running) → w < s.nWorkers ∧ (s.st o).active = true ∧ ownerOk s o
-  werrJ : ∀ o, s.werr o = true → ownerOk s o ∧
-    ((s.st o = .running ∧ s.creq o = true) ∨ (∃ dl, s.st o = .stopping true dl) ∨ s.st o = .failed)
+  wkRoot : ∀ w r, s.wk w = some (.root r, .running) →
+    w < s.nWorkers ∧ (s.st (.root r)).active = true ∧ r.kind = .observer
+  wkSub : ∀ w i, s.wk w = some (.sub i, .running) →
+    w < s.nWorkers ∧ (s.st (.sub i)).active = true ∧ i < s.nSubs
+  werrRoot : ∀ r, s.werr (.root r) = true → r.kind = .observer ∧
+    ((s.st (.root r) = .running ∧ s.creq (.root r) = true) ∨ (∃ dl, s.st (.root r) = .stopping true dl)
+      ∨ s.st (.root r) = .failed)
+  werrSub : ∀ i, s.werr (.sub i) = true → i < s.nSubs ∧
+    ((s.st (.sub i) = .running ∧ s.creq (.sub i) = true) ∨ (∃ dl, s.st (.sub i) = .stopping true dl)
+      ∨ s.st (.sub i) = .failed)
   withdrawnJ : ∀ i, i < s.nSubs → s.kind i = .pinger → (s.st (.sub i)).ended = true → s.withdrawn i = true
   stoppingNone : ∀ r f, s.st (.root r) = .stopping f none → r = .orchestrator
   subSome : ∀ i f, s.st (.sub i) ≠ .stopping f none
-  orchStopSubs : (∃ f dl, s.st (.root .orchestrator) = .stopping f dl) →
+  orchStopSubs : (s.st (.root .orchestrator)).isStopping = true →
     ∀ i, i < s.nSubs → (s.st (.sub i)).live = true →
-      s.creq (.sub i) = true ∨ ∃ f dl, s.st (.sub i) = .stopping f dl
+      s.creq (.sub i) = true ∨ (s.st (.sub i)).isStopping = true
 
 theorem InvB.init : InvB init := by
   constructor <;> simp [Kopf.C20.init, initSt]
-  · intro r; split <;> simp
-  · intro r f; split <;> simp
+  all_goals (intro r; split <;> simp)
 
 set_option maxHeartbeats 4000000 in
 theorem InvB.preserved {cfg : Cfg} {s s' : State} {l : Label} (hI : InvB s)
     (h : step cfg s l = some s') : InvB s' := by
-  obtain ⟨h1, h2, h3, h4, h5, h6, h7, h8⟩ := hI
+  obtain ⟨h1, h2, h3, h4, h5, h6, h7, h8, h9, h10⟩ := hI
   cases l <;> simp only [step] at h
   all_goals (repeat' (split at h))
   all_goals (first | (cases h; done) | skip)
   all_goals (cases h)
   all_goals (try simp only [noLiveWorkerOf_iff, noLiveSub_iff] at *)
-  all_goals (refine ⟨?_, ?_, ?_, ?_, ?_, ?_, ?_, ?_⟩)
-  all_goals (first | (simp_all; done) | skip)
-  all_goals (first | grind [upd, Root.kind, TS.active, TS.live, TS.ended, watcherLike, ownerOk, failTS, cancelSubs, cancelRoots, Pend.ts] | (trace_state; sorry))
+  all_goals (refine ⟨?_, ?_, ?_, ?_, ?_, ?_, ?_, ?_, ?_, ?_⟩)
+  all_goals (first | exact h1 | exact h2 | exact h3 | exact h4 | exact h5 | exact h6 | exact h7 | exact h8
+                   | exact h9 | exact h10 | skip)
+  all_goals (try simp only [kind_orchestrator_iff, kind_killer_iff, kind_flagChecker_iff, kind_ultimate_iff,
+    kind_startupCleanup_iff] at *)
+  all_goals (try subst_vars)
+  all_goals (try dsimp only)
+  all_goals (first | grind [upd, Root.kind, TS.active, TS.live, TS.ended, TS.isStopping, watcherLike, failTS, cancelSubs, cancelRoots, Pend.ts] | (trace_state; sorry))
 
 end Kopf.C20
